@@ -88,7 +88,9 @@ main(int argc, char **argv)
 		int clayout, slayout, ccls, scls, chunk, wpol, closer, hs_ok, data_ok, close_ok;
 		size_t cfrag, sfrag, c_total, s_total, eff_c, eff_s;
 		uint16_t suite_list[1];
-		int keykind;
+		int keykind, cauth;
+		const br_x509_certificate *sch, *cch;
+		size_t schn, cchn;
 
 		if (only >= 0 && idx != only) continue;
 		vf_rng_init(&r, (uint64_t)seed, (uint64_t)idx);
@@ -124,6 +126,17 @@ main(int argc, char **argv)
 		}
 		vf_distinct("version_shape", "%04x c%04x-%04x s%04x-%04x kx%d", pv->version, cc.vmin, cc.vmax, sc.vmin, sc.vmax, pv->s->kx);
 		sc.keykind = keykind;
+		/* chains: the single certificate, leaf + intermediate, a 21 kB leaf (Certificate message over several records,
+		   whatever the fragment classes), leaf + superfluous root; a quarter of the sessions with client certificates
+		   (RSA, possibly with its intermediate; EC: signature or static ECDH as the suite allows) */
+		sc.chain_kind = (int)(idx % 4);
+		if (sc.chain_kind == 2 && !full16k && (idx % 3) != 0) sc.chain_kind = 1;
+		cauth = (idx % 4) == 3 ? 1 + (int)((idx >> 2) & 1) : 0;
+		cc.client_auth = sc.client_auth = cauth;
+		cc.chain_kind = (int)((idx >> 3) & 1);
+		sch = tp_chain_pick(1, keykind, 0, 0, sc.chain_kind, &schn);
+		cch = tp_chain_pick(0, 0, cauth, 0, cc.chain_kind, &cchn);
+		vf_distinct("chain_shape", "key%d s%zu:%zu c%zu:%zu", keykind, schn, sch[0].data_len, cchn, cchn ? cch[0].data_len : (size_t)0);
 		/* which implementations serve the record layer and the key exchange: each side draws its own set */
 		cc.impl_set = (int)vf_below(&r, 4); sc.impl_set = (int)vf_below(&r, 4);
 		vf_distinct("impl_sets", "%04x c%d s%d", pv->s->id, cc.impl_set, sc.impl_set);
@@ -178,6 +191,29 @@ main(int argc, char **argv)
 			|| strcmp(p.c.xw->server_name, "localhost") != 0)
 		{
 			TP_VIOL("handshake:validator-not-consulted", "client became ready without exactly one accepted end_chain for the configured name");
+		}
+
+		/* each validator was given exactly the certificates its peer was configured with, in order */
+		{
+			int side;
+			for (side = 0; side < 2; side ++) {
+				tp_xwrap *xw = side == 0 ? p.c.xw : p.s.xw;
+				const br_x509_certificate *ch = side == 0 ? sch : cch;
+				size_t n = side == 0 ? schn : cchn, q;
+				if (n == 0) continue;
+				if (xw->n_end_chain != 1 || xw->last_verdict != 0 || (size_t)xw->n_start_cert != n) {
+					TP_VIOL("handshake:chain-not-validated", "the validator did not see (or did not accept) the number of certificates the peer sent");
+					continue;
+				}
+				for (q = 0; q < n && q < 8; q ++) {
+					if (xw->cert_len[q] != ch[q].data_len || xw->cert_hash[q] != vf_fnv(ch[q].data, ch[q].data_len, 0)) {
+						TP_VIOL("handshake:chain-bytes-differ", "a certificate reached the validator with other bytes than the peer sent");
+						break;
+					}
+				}
+				vf_stat(side == 0 ? "server_chains_compared" : "client_chains_compared", 1);
+				vf_max(side == 0 ? "server_chain_bytes_max" : "client_chain_bytes_max", (long long)(ch[0].data_len + (n > 1 ? ch[1].data_len : 0)));
+			}
 		}
 
 		data_ok = tp_run_data(&p, c_total, s_total, wpol, 8000000);
